@@ -29,6 +29,22 @@ class Production(object):
 
 
 class Lexicon(object):
+    def lexer_converts(self, name):
+        """the builtin ('int' / 'float' / ...) the token function of `name` converts its text with, or None when the token keeps
+        its spelling"""
+        import ast as _ast
+
+        r = self.rule(name)
+        if r is None or not isinstance(r.node, _ast.FunctionDef):
+            return None
+        t = r.node.args.args[-1].arg
+        for n in _ast.walk(r.node):
+            if isinstance(n, _ast.Assign) and len(n.targets) == 1 and isinstance(n.targets[0], _ast.Attribute) and n.targets[0].attr == "value" and isinstance(n.targets[0].value, _ast.Name) and n.targets[0].value.id == t:
+                v = n.value
+                if isinstance(v, _ast.Call) and isinstance(v.func, _ast.Name) and len(v.args) == 1 and isinstance(v.args[0], _ast.Attribute) and v.args[0].attr == "value":
+                    return v.func.id
+        return None
+
     def __init__(self, idx):
         mod = idx.module_of("mpilot.parser.parser")
         self.mod = mod
